@@ -92,6 +92,11 @@ type refRun struct {
 
 // buildReference generates a chain with gen (called per height on the live world), runs it in
 // lock-step (full dumps), and stores the chain file in dir.
+// tolerateRefDiff: a disagreement with the model while the reference chain is built is recorded
+// and the chain is completed by the implementation alone (scenarios that compare implementation
+// runs with each other can still do so).
+var tolerateRefDiff = false
+
 func buildReference(rep *Report, s Setup, g *Gen, dir string, from, to uint32, build func(w *World, h uint32) *BlockSpec) (*refRun, bool) {
 	run, err := NewRun(s)
 	if err != nil {
@@ -117,7 +122,10 @@ func buildReference(rep *Report, s Setup, g *Gen, dir string, from, to uint32, b
 			path := WriteReplay(rep.Property, "reference", Replay{Property: rep.Property, Scenario: rep.Scenario, Seed: g.Seed, Setup: s,
 				What: fmt.Sprintf("model and implementation disagree at height %d", h), Detail: []string{res.Diff, res.ImplMsg, res.ModelAns}, Blocks: ChainJSON(run.Chain)})
 			rep.Disagree("lockstep:"+eraOf(s.Acts, h), res.Diff, path)
-			return nil, false
+			if !tolerateRefDiff {
+				return nil, false
+			}
+			run.NoModel = true
 		}
 		if !res.ImplOK {
 			// keep the reference chain syncable: replace by an empty block
